@@ -277,7 +277,7 @@ def run_suite(suite: Suite, seed: int, tier: str, res: Result, deadline: float) 
         for sig, msg in suite.oracle(case, obs):
             k = match_known(PROP[0], sig)
             if k:
-                if (sig, k["what"]) not in res.known:
+                if not any(w == k["what"] for _, w in res.known):  # one line per listed finding
                     res.known.append((sig, k["what"]))
             else:
                 ok = False
